@@ -7,8 +7,8 @@ from .common import add_failure as _add_failure
 from .common import bump, new_outcome
 
 PROP = "C03"
-PROPS_FILES = ["CogentModel/Props/C03.lean"]
-LEAN_TARGETS = ["CogentModel.Props.C03"]
+PROPS_FILES = ["CogentModel/Props/C03.lean", "CogentModel/Props/C03Filter.lean", "CogentModel/Props/C03Gen.lean"]
+LEAN_TARGETS = ["CogentModel.Props.C03", "CogentModel.Props.C03Filter", "CogentModel.Props.C03Gen"]
 DRIVER = "drv_c03"
 TRUSTED = [
     "hand-written model lean/CogentModel/Model/Aln.lean of Aligned = (IndelMap, displayed ungapped string) rows and of the "
@@ -17,6 +17,13 @@ TRUSTED = [
     "the Sequence view under each row is modelled by its displayed string (that a view displays the sliced/complemented "
     "string is property C01)",
     "plain Python str operations are the oracle of the spec-level differential",
+    "translator/c03_windows2lean.py (AST of AlignmentI.sliding_windows -> Gen/C03Windows.lean, proved equal to the hand model "
+    "windowBounds for all arguments; PySlice.rangeList is the spec of range())",
+    "hand-written model lean/CogentModel/Model/AlnPred.lean of the predicate side of filtered / no_degenerates / omit_gap_pos "
+    "(motif grouping, zip(*seqs), AllowedCharacters, GapsOk incl. the binary64 quotient f64div, the kept toggle, the "
+    "drop_remainder refusal) and of the sliding_windows bounds; tied by the history correspondence (the model evaluates "
+    "the predicate itself), by calling the real GapsOk / AllowedCharacters objects on random columns, by f64div vs "
+    "CPython float division over an exhaustive box, and by sliding_windows of both classes",
 ]
 ASSUMPTIONS = [
     "moltypes dna / rna / protein (the property's quantifier); 'text' and 'bytes' alignments are not generated",
@@ -25,6 +32,23 @@ ASSUMPTIONS = [
     "complement table = IUPAC DNA/RNA complement as checked by C12",
 ]
 MAX_PER_SIG = 6
+
+
+def generate(ctx):
+    """translator step: AlignmentI.sliding_windows of the CURRENT source -> Gen/C03Windows.lean (proved equal to the hand model
+    windowBounds in Props/C03Gen.lean, so a semantic edit of the method breaks a proof obligation)"""
+    import sys
+
+    from .common import LEAN, SRC, VERIF
+
+    sys.path.insert(0, str(VERIF))
+    from translator import c03_windows2lean as tr
+
+    lean, info, problems = tr.translate(SRC / "core" / "alignment.py")
+    ctx.notes.append(f"c03_windows2lean: {info}")
+    if lean is not None and tr.write_if_changed(LEAN / "CogentModel" / "Gen" / "C03Windows.lean", lean):
+        ctx.notes.append("Gen/C03Windows.lean was rewritten (source differs from the last generated text)")
+    return [f"c03_windows2lean: {p}" for p in problems]
 N_PLANNED = 330  # planned histories per budget unit (x 2 classes)
 N_RANDOM = 220  # free random histories per budget unit (x 2 classes)
 
@@ -279,6 +303,14 @@ def _gen_op(rng, kind, mt, rows, wild=True):
         # reference rows holding '?', N, R ... : only the gap character marks a dropped column
         amb = [nm for nm, v in rows.items() if any(c in v for c in "?NRYXB")]
         return ["degapped_relative_to", rng.choice(amb if amb else names)]
+    if kind == "to_xna":
+        return ["to_rna"] if mt == "dna" else ["to_dna"] if mt == "rna" else None
+    if kind == "add_seqs":
+        # rows of another alignment (new names, same length, a gap layout of their own) inserted before / after a
+        # named row or appended
+        other = {f"x{i}": _rand_row(rng, n, mt, rng.choice([0.0, 0.25, 0.5])) for i in range(rng.randint(1, 2))}
+        where = rng.choice(["end", "before", "after"])
+        return ["add_seqs", other, where, rng.choice(names)]
     if kind == "to_type:T":
         return ["to_type", True]
     if kind == "to_type:F":
@@ -308,6 +340,8 @@ PLANS = [
     ("to_type", ["slice", "?rc", "to_type:T", "*", "to_type:F", "*"]),
     ("to_type", ["?slice", "rc", "to_type:F", "*", "to_type:T", "*"]),
     ("to_type", ["take_seqs", "?slice", "to_type:T", "?*", "to_type:F", "?*"]),
+    ("to_xna", ["?slice", "?rc", "to_xna", "?rc", "?*", "?to_xna", "?*"]),
+    ("add_seqs", ["?slice", "?rc", "add_seqs", "?*"]),
 ]
 
 
@@ -340,7 +374,7 @@ def _rand_op(rng, mt, rows, wild=True):
         # filters, samples with motif_length, class conversion
         op = _gen_op(rng, rng.choice(["slice", "slice", "take_positions", "take_positions", "omit_gap_pos", "motif", "filtered",
                                       "degapped_relative_to", "degap_amb", "sample", "to_type:T", "to_type:F", "rc",
-                                      "copy", "copy", "add_perm"]), mt, rows, wild)
+                                      "copy", "copy", "add_perm", "to_xna", "to_xna", "add_seqs"]), mt, rows, wild)
         if op is not None:
             return op
     r = rng.random()
@@ -456,6 +490,18 @@ def _spec_apply(mt, rows, op):
         if op[1] == "perm-slice":
             return mt, {nm: s + s[1:] for nm, s in rows.items()}
         raise ValueError(op[1])
+    if k == "add_seqs":
+        other, where, name = op[1], op[2], op[3]
+        if where == "end":
+            return mt, {**rows, **other}
+        res = {}
+        for nm, v in rows.items():
+            if where == "before" and nm == name:
+                res.update(other)
+            res[nm] = v
+            if where == "after" and nm == name:
+                res.update(other)
+        return mt, res
     if k == "copy":
         return mt, dict(rows)
     if k == "to_type":
@@ -529,6 +575,12 @@ def _real_apply(aln, op, mt):
         if op[1] == "rich_dict":
             return deserialise_object(aln.to_rich_dict())
         return deserialise_object(aln.to_json())
+    if k == "add_seqs":
+        from cogent3.core.alignment import ArrayAlignment
+
+        other = _mk(op[1], aln.moltype.label, isinstance(aln, ArrayAlignment))
+        kw = {} if op[2] == "end" else {f"{op[2]}_name": op[3]}
+        return aln.add_seqs(other, **kw)
     if k == "add" and op[1].startswith("perm"):
         right = aln.take_seqs(list(op[2]))
         if op[1] == "perm-rc":
@@ -588,6 +640,8 @@ def _op_detail(op, rows):
         return "plain"
     if k == "add":
         return op[1]
+    if k == "add_seqs":
+        return op[2]
     if k == "copy":
         return op[1] + (":zero-columns" if n == 0 else "")
     if k == "sample_perm" or k == "sample_idx":
@@ -646,7 +700,35 @@ READ_ONLY = [
     ("iter_positions", lambda a: ["".join(map(str, p)) for p in a.iter_positions()]),
     ("str", lambda a: str(a)),
     ("counts", lambda a: sorted(dict(a.counts()).items())),
+    ("get_ambiguous_positions", lambda a: sorted((k, sorted(v.items())) for k, v in a.get_ambiguous_positions().items())),
+    ("counts_per_seq", lambda a: _tab(a.counts_per_seq())),
+    ("counts_per_seq:gap", lambda a: _tab(a.counts_per_seq(include_ambiguity=True, allow_gap=True))),
+    ("counts_per_pos:ml2", lambda a: _tab(a.counts_per_pos(motif_length=2, include_ambiguity=True, allow_gap=True))),
+    ("probs_per_pos", lambda a: _tab(a.probs_per_pos(), 9)),
+    ("entropy_per_pos", lambda a: [None if x != x else round(float(x), 9) for x in a.entropy_per_pos()]),
+    ("to_pretty", lambda a: a.to_pretty()),
+    ("to_nexus", lambda a: a.to_nexus("protein" if a.moltype.label == "protein" else a.moltype.label)),
+    ("get_identical_sets", lambda a: sorted(sorted(x) for x in a.get_identical_sets())),
+    ("repr", lambda a: repr(a)),
+    ("count_gaps_per_seq:noamb", lambda a: [int(x) for x in a.count_gaps_per_seq(include_ambiguity=False).array]),
+    ("get_gap_array:noamb", lambda a: a.get_gap_array(include_ambiguity=False).astype(int).tolist()),
+    ("iter_seqs", lambda a: [str(x) for x in a.iter_seqs()]),
+    ("get_translation", lambda a: a.get_translation(incomplete_ok=True).to_dict()),
+    ("has_terminal_stop", lambda a: a.has_terminal_stop()),
+    ("to_dna", lambda a: a.to_dna().to_dict()),
+    ("to_rna", lambda a: a.to_rna().to_dict()),
+    ("get_motif_probs", lambda a: sorted((k, round(float(v), 9)) for k, v in a.get_motif_probs().items())),
 ]
+
+
+def _tab(t, nd=None):
+    """a DictArray-like result as (column labels, rows)"""
+    if t is None:
+        return None
+    arr = t.array.tolist()
+    if nd is not None:
+        arr = [[None if x != x else round(float(x), nd) for x in r] for r in arr]
+    return [list(map(str, t.motifs)) if hasattr(t, "motifs") else None, arr]
 
 
 def _call(f, a):
@@ -741,7 +823,7 @@ def _run_history(out, rng, mt0, rows0, ops, arr, check_methods=True):
 
         is_arr = isinstance(aln, ArrayAlignment)
         fresh = _mk(rows, mt, is_arr)
-        for name, f in rng.sample(READ_ONLY, 5):
+        for name, f in rng.sample(READ_ONLY, 9):
             a, b = _call(f, aln), _call(f, fresh)
             bump(out, "methods", name)
             if a != b:
@@ -749,6 +831,20 @@ def _run_history(out, rng, mt0, rows0, ops, arr, check_methods=True):
                 add_failure(out, "spec", f"read-only method {name} differs from a fresh alignment built from the rows",
                             dict(cls=cls, moltype=mt0, rows=rows0, ops=ops, method=name), b, a,
                             sig=f"{'ArrayAlignment' if is_arr else 'Alignment'}:method:{name}{taint}")
+    # sliding_windows of the result: the windows of the rows
+    if rows and _ncols(rows) and rng.random() < 0.3:
+        w, st, a, b = _rand_window_args(rng, _ncols(rows))
+        out["evaluations"] += 1
+        want = _windows_oracle(rows, w, st, a, b)
+        try:
+            got = [x.to_dict() for x in aln.sliding_windows(w, st, start=a, end=b)]
+        except Exception as e:
+            got = {"err": type(e).__name__}
+        bump(out, "methods", "sliding_windows")
+        if got != want:
+            add_failure(out, "spec", "sliding_windows of the result are not the windows of the rows",
+                        dict(cls=cls, moltype=mt0, rows=rows0, ops=ops, windows=[w, st, a, b]), want, got,
+                        sig=f"{type(aln).__name__}:sliding_windows" + (":after-slice-beyond-len" if _tainted(done) else ""))
     return len(done)
 
 
@@ -901,6 +997,115 @@ def _spec_seq_add(out, rng, count):
                     bump(out, "op_detail", sig)
 
 
+def _coll_spec(mt, cur, op):
+    """one collection operation on the plain strings"""
+    k = op[0]
+    if k == "take_seqs":
+        return mt, {n: cur[n] for n in ([n for n in cur if n not in op[1]] if op[2] else op[1])}
+    if k == "rc":
+        tab = DNA_COMP if mt == "dna" else RNA_COMP
+        return mt, {n: v[::-1].translate(tab) for n, v in cur.items()}
+    if k in ("to_rna", "to_dna"):
+        return _spec_apply(mt, cur, op)
+    if k == "degap":
+        return mt, {n: v.replace("-", "").replace("?", "") for n, v in cur.items()}
+    if k == "add_seqs":
+        return mt, {**cur, **op[1]}
+    if k == "add":
+        return mt, {n: v + v for n, v in cur.items()}
+    if k == "copy":
+        return mt, dict(cur)
+    raise ValueError(k)
+
+
+def _run_coll(out, impl, mt, seqs, ops):
+    """one history on a plain SequenceCollection (old or new-style class) vs the strings; True if all ops agreed"""
+    import cogent3
+    from cogent3.core import new_alignment
+
+    make = cogent3.make_unaligned_seqs if impl == "old" else new_alignment.make_unaligned_seqs
+    try:
+        c = make(dict(seqs), moltype=mt)
+    except Exception as e:
+        add_failure(out, "spec", "collection constructor raised", dict(impl=impl, moltype=mt, seqs=seqs, ops=[]), seqs, type(e).__name__,
+                    sig=f"SequenceCollection:{impl}:construct")
+        return False
+    done, cur_mt, cur = [], mt, dict(seqs)
+    for op in ops:
+        done.append(op)
+        k = op[0]
+        if impl == "new" and k in ("add", "copy"):
+            return True  # no `+` / copy on the new-style collection
+        cur_mt, cur = _coll_spec(cur_mt, cur, op)
+        out["evaluations"] += 1
+        try:
+            if k == "take_seqs":
+                c = c.take_seqs(op[1], negate=op[2])
+            elif k == "rc":
+                c = c.rc()
+            elif k == "to_rna":
+                c = c.to_rna()
+            elif k == "to_dna":
+                c = c.to_dna()
+            elif k == "degap":
+                c = c.degap()
+            elif k == "add_seqs":
+                c = c.add_seqs(make(dict(op[1]), moltype=cur_mt) if impl == "old" else dict(op[1]))
+            elif k == "add":
+                c = c + c.take_seqs(op[1])
+            elif op[1] == "rich_dict":
+                from cogent3.util.deserialise import deserialise_object
+
+                c = deserialise_object(c.to_rich_dict())
+            else:
+                c = getattr(c, op[1])()
+            got, got_names = c.to_dict(), list(c.names)
+        except Exception as e:
+            got, got_names = {"err": type(e).__name__}, None
+        sig = f"SequenceCollection:{impl}:{k}" + (":after-rc" if any(d[0] == "rc" for d in done[:-1]) else "")
+        if got != cur or (got_names is not None and got_names != list(cur)):
+            add_failure(out, "spec", f"collection {k} differs from the same operation on the strings",
+                        dict(impl=impl, moltype=mt, seqs=seqs, ops=list(done)), cur, got, sig=sig)
+            return False
+        bump(out, "coll_op", f"{impl}:{k}")
+    return True
+
+
+def _coll_histories(out, rng, count):
+    """the COLLECTION half of the property: histories of take_seqs (both polarities) / rc / to_rna / to_dna / degap /
+    add_seqs / `+` / copies on a plain SequenceCollection (ragged sequences, gaps and degenerates allowed), old and
+    new-style class, against the same operations on the strings"""
+    for it in range(count):
+        mt = rng.choice(["dna", "dna", "rna", "protein"])
+        seqs = {f"s{i}": _rand_row(rng, rng.randint(1, 14), mt, rng.choice([0.0, 0.0, 0.2])) for i in range(rng.randint(1, 5))}
+        ops, cur_mt, cur = [], mt, dict(seqs)
+        for _ in range(rng.randint(1, 4)):
+            names = list(cur)
+            k = rng.choice(["take_seqs", "take_seqs", "rc", "rc", "to_xna", "degap", "add_seqs", "add", "copy"])
+            if cur_mt == "protein" and k in ("rc", "to_xna"):
+                continue
+            if k == "take_seqs":
+                sel = rng.sample(names, rng.randint(1, len(names)))
+                op = ["take_seqs", sel, rng.random() < 0.3 and len(sel) < len(names)]
+            elif k == "to_xna":
+                op = ["to_rna"] if cur_mt == "dna" else ["to_dna"]
+            elif k == "add_seqs":
+                op = ["add_seqs", {f"y{len(ops)}": _rand_row(rng, rng.randint(1, 9), cur_mt, 0.0)}]
+            elif k == "add":
+                order = list(names)
+                rng.shuffle(order)
+                op = ["add", order]
+            elif k == "copy":
+                op = ["copy", rng.choice(["deepcopy", "copy", "rich_dict"])]
+            else:
+                op = [k]
+            ops.append(op)
+            cur_mt, cur = _coll_spec(cur_mt, cur, op)
+        for impl in ("old", "new"):
+            if ops and _run_coll(out, impl, mt, seqs, ops):
+                out["nontrivial"].add(("coll", impl, mt, str(seqs), str(ops)))
+
+
 def _regression_corpus(out, rng):
     """witnesses of repaired defects (status "fixed" in known_findings.d/C03.json) are replayed first on every run;
     a failure is an ordinary spec failure (fixed entries are never matched as known)"""
@@ -916,6 +1121,12 @@ def _regression_corpus(out, rng):
             continue
         bump(out, "regression_corpus", k["id"])
         tmp = new_outcome()
+        if "rows" not in w:
+            # collection-level witness
+            f = _replay_input(w, None)
+            if f:
+                add_failure(out, "spec", f"REGRESSION of {k['id']} ({k.get('commit')}): " + f["what"], f["input"], f["expected"], f["got"], sig="regression:" + f["sig"])
+            continue
         _run_history(tmp, rng, w["moltype"], w["rows"], w["ops"], w.get("cls") == "ArrayAlignment", check_methods=False)
         out["evaluations"] += tmp["evaluations"]
         for f in tmp["failures"]:
@@ -933,7 +1144,8 @@ def spec_check(ctx, budget):
         "sample with given permutation/randint indices, motif_length 1 and 3; to_type both ways after slice/rc then more "
         "ops) of slice/int/rc/take_positions/take_seqs/no_degenerates/omit_gap_pos/filtered/degapped_relative_to/"
         "sample(given indices)/+/to_type/to_rna/to_dna on BOTH Alignment and ArrayAlignment vs the same ops on plain "
-        "strings; exhaustive single slices/int/rc-after-slice on small alignments; read-only methods vs a fresh object. "
+        "strings; exhaustive single slices/int/rc-after-slice on small alignments; 39 read-only methods vs a fresh object; "
+        "add_seqs (end/before/after a name), to_rna/to_dna chains, sliding_windows of the result vs the windows of the rows. "
         "non-trivial = distinct (class, alignment, history) that ran >= 1 op to a non-empty result"
     )
     rng = ctx.subrng(f"spec{budget}")
@@ -983,6 +1195,7 @@ def spec_check(ctx, budget):
                         _run_history(out, rng, mt, rows, [["slice", a, b], ["copy", k1], ["rc"], ["copy", k2], ["slice", 1, None]],
                                      arr, check_methods=False)
     _spec_seq_add(out, rng, 60 * budget)
+    _coll_histories(out, rng, 120 * budget)
     # planned histories: every class of the property's quantifier appears on purpose, on both classes
     for it in range(N_PLANNED * budget):
         name, plan = PLANS[it % len(PLANS)]
@@ -1042,7 +1255,7 @@ def spec_check(ctx, budget):
 # --------------------------------------------------------------------------
 MODEL_OPS = ("slice", "int", "rc", "take_seqs", "take_positions", "to_rna", "to_dna", "add", "keep",
              "degapped_relative_to", "sample_perm", "sample_idx", "to_type",
-             "no_degenerates", "omit_gap_pos", "filtered", "copy")
+             "no_degenerates", "omit_gap_pos", "filtered", "copy", "add_seqs")
 
 
 def _filter_mask(mt, rows, op):
@@ -1076,12 +1289,17 @@ def _model_ops(mt, rows, ops):
     res = []
     cur_mt, cur = mt, dict(rows)
     for op in ops:
-        if op[0] in ("no_degenerates", "omit_gap_pos", "filtered"):
+        if op[0] in ("no_degenerates", "omit_gap_pos", "filtered") and len(res) % 3:
+            # the MODEL evaluates the predicate on the motif columns it displays (Model/AlnPred.lean), incl. the
+            # drop_remainder refusal
+            res.append(_pred_op(cur_mt, op))
+        elif op[0] in ("no_degenerates", "omit_gap_pos", "filtered"):
+            # the verdict per column is evaluated here and handed to the model (AOp.filterMask)
             mask = _filter_mask(cur_mt, cur, op)
             if mask is None:
                 break
             res.append(["filter_mask", mask])
-        elif op[0] == "copy" or (op[0] == "add" and op[1] not in ("self", "copy")):
+        elif op[0] in ("copy", "add_seqs") or (op[0] == "add" and op[1] not in ("self", "copy")):
             break
         else:
             res.append(_model_op(op))
@@ -1093,6 +1311,21 @@ def _model_ops(mt, rows, ops):
         except Exception:
             break
     return res
+
+
+GAPS = "-?"  # moltype.gaps of dna / rna / protein
+
+
+def _pred_op(mt, op):
+    """the driver's encoding of a filter op whose predicate the model evaluates itself"""
+    from .common import rat
+
+    k = op[0]
+    if k == "no_degenerates":
+        return ["no_degenerates_m", CANON[mt] + ("-" if op[1] else ""), op[2] if len(op) > 2 else 1]
+    if k == "omit_gap_pos":
+        return ["omit_gap_pos_m", GAPS, rat(1 - 1e-6 if op[1] is None else op[1]), op[2] if len(op) > 2 else 1]
+    return ["filtered_m", op[1], op[2], bool(op[3])]
 
 
 def _model_op(op):
@@ -1187,6 +1420,125 @@ def _view_correspondence(ctx, out, rng):
             out["nontrivial"].add(("view", mt, str(rows), str(ops)))
 
 
+def _windows_oracle(rows, window, step, start, end):
+    """sliding_windows on plain strings: the windows of `window` columns starting at start, start+step, ... that lie
+    inside the alignment and start before `end`"""
+    n = _ncols(rows)
+    lo = 0 if start is None else start
+    hi = n - window + 1 if end is None else min(end, n - window + 1)
+    return [{nm: v[p : p + window] for nm, v in rows.items()} for p in range(lo, hi, step)] if lo < hi else []
+
+
+def _rand_window_args(rng, n):
+    window = rng.choice([1, 2, 3, 3, 4, n, n + 1, max(n - 1, 1)]) if rng.random() < 0.6 else rng.randint(1, max(n, 1))
+    step = rng.choice([1, 1, 2, 3, 5])
+    start = None if rng.random() < 0.4 else rng.randint(0, n)
+    end = None if rng.random() < 0.4 else rng.randint(0, n + 2)
+    return window, step, start, end
+
+
+def _pred_correspondence(ctx, out, rng):
+    """Model/AlnPred.lean against the real code piece by piece: (a) f64div vs CPython's float division, exhaustive
+    0 <= k <= d <= 40 plus random large pairs; (b) the real GapsOk (gap_frac_ok, negate, gap_run) and
+    AllowedCharacters objects, string and array flavour, on random motif columns with thresholds ON and around the
+    exact fractions; (c) sliding_windows of both classes vs the model's window bounds applied to the strings"""
+    from fractions import Fraction
+
+    import numpy
+    from cogent3.core.alignment import AllowedCharacters, GapsOk
+
+    from .common import rat, unrat
+
+    pairs = [(k, d) for d in range(1, 41) for k in range(0, d + 1)]
+    for _ in range(ctx.budget(300, 5000)):
+        d = rng.choice([rng.randint(1, 200), rng.randint(1, 10**6), rng.randint(1, 2**40)])
+        pairs.append((rng.randint(0, 3 * d), d))
+    got = ctx.driver.batch([("f64div", dict(k=k, d=d)) for k, d in pairs])
+    for (k, d), g in zip(pairs, got):
+        out["evaluations"] += 1
+        want = Fraction(k / d)
+        if isinstance(g, dict) or unrat(g) != want:
+            add_failure(out, "corr", "f64div differs from CPython float division", dict(k=k, d=d), rat(want), g, confirmed=False)
+    bump(out, "pred_stream", "f64div", )
+    # (b) predicate objects
+    alpha = "ACGTN-?"
+    cases = []
+    for _ in range(ctx.budget(600, 8000)):
+        nr, ml = rng.randint(1, 5), rng.choice([1, 1, 2, 3])
+        gappy = rng.choice([0.0, 0.2, 0.5, 0.9, 1.0])
+        col = ["".join(rng.choice("-?" if rng.random() < 0.8 else "?") if rng.random() < gappy else rng.choice("ACGTN") for _ in range(ml))
+               for _ in range(nr)]
+        kind = rng.choice(["gaps_ok", "gaps_ok", "gaps_not_ok", "allowed", "gap_run_ok"])
+        denom = nr * ml
+        cnt = sum(c in GAPS for m in col for c in m)
+        if kind in ("gaps_ok", "gaps_not_ok"):
+            r = rng.random()
+            if r < 0.35:
+                frac = cnt / denom  # exactly on the threshold
+            elif r < 0.5:
+                frac = numpy.nextafter(cnt / denom, rng.choice([0.0, 2.0])).item()  # one ulp off
+            elif r < 0.7:
+                frac = rng.randint(0, denom) / denom
+            elif r < 0.8:
+                frac = rng.choice([0, 1, 1 - 1e-6, 0.5, 1 / 3, 2 / 3, 0.1])
+            else:
+                frac = rng.random()
+            cases.append((kind, col, GAPS, ml, frac))
+        elif kind == "allowed":
+            chars = rng.choice(["ACGT", "ACGT-", "ACGTN", "ACG", "-", "ACGT-?N"])
+            cases.append((kind, col, chars, ml, None))
+        else:
+            cases.append((kind, ["".join(col)], GAPS, rng.randint(0, 3), None))
+    reqs = [("pred", dict(kind=k, col=col, chars=chars, ml=ml, **({} if frac is None else {"frac": rat(frac)})))
+            for k, col, chars, ml, frac in cases]
+    got = ctx.driver.batch(reqs)
+    for (kind, col, chars, ml, frac), g in zip(cases, got):
+        out["evaluations"] += 1
+        arr = numpy.array([[alpha.index(c) for c in m] for m in col], dtype=int)
+        idx = [alpha.index(c) for c in chars]
+        try:
+            if kind == "gaps_ok":
+                real = [bool(GapsOk(chars, frac, motif_length=ml)(tuple(col))), bool(GapsOk(idx, frac, motif_length=ml, is_array=True)(arr))]
+            elif kind == "gaps_not_ok":
+                real = [bool(GapsOk(chars, frac, motif_length=ml, negate=True)(tuple(col))),
+                        bool(GapsOk(idx, frac, motif_length=ml, is_array=True, negate=True)(arr))]
+            elif kind == "allowed":
+                real = [bool(AllowedCharacters(chars)(tuple(col))), bool(AllowedCharacters(idx, is_array=True)(arr))]
+            else:
+                real = [bool(GapsOk(chars, gap_run=True, allowed_run=ml)(col[0]))]
+        except Exception as e:
+            real = [type(e).__name__]
+        bump(out, "pred_kind", f"{kind}:{g}")
+        if any(r != g for r in real):
+            add_failure(out, "corr", f"predicate {kind}: model verdict differs from the real object (string / array flavour)",
+                        dict(kind=kind, col=col, chars=chars, ml=ml, frac=frac), g, real, confirmed=False)
+        elif kind.startswith("gaps") and frac == sum(c in GAPS for m in col for c in m) / (len(col) * ml):
+            out["nontrivial"].add(("pred-on-threshold", kind, str(col), ml))
+    # (c) sliding windows, both classes
+    wcases = []
+    for _ in range(ctx.budget(120, 2500)):
+        mt, rows, shape = _shaped_aln(rng) if rng.random() < 0.4 else (*_rand_aln(rng), "random")
+        n = _ncols(rows)
+        if n:
+            wcases.append((mt, rows, _rand_window_args(rng, n)))
+    got = ctx.driver.batch([("windows", dict(n=_ncols(rows), window=w, step=st, start=a, end=b)) for mt, rows, (w, st, a, b) in wcases])
+    for (mt, rows, (w, st, a, b)), g in zip(wcases, got):
+        model = [{nm: v[x:y] for nm, v in rows.items()} for x, y in g] if isinstance(g, list) else g
+        for arr in (False, True):
+            out["evaluations"] += 1
+            try:
+                real = [x.to_dict() for x in _mk(rows, mt, arr).sliding_windows(w, st, start=a, end=b)]
+            except Exception as e:
+                real = {"err": type(e).__name__}
+            bump(out, "windows", min(len(real), 5) if isinstance(real, list) else "err")
+            if real != model:
+                add_failure(out, "corr", "sliding_windows: yielded alignments differ from the model's window bounds applied to the rows",
+                            dict(cls="ArrayAlignment" if arr else "Alignment", moltype=mt, rows=rows, window=w, step=st, start=a, end=b),
+                            model, real, confirmed=False)
+            elif isinstance(real, list) and len(real) > 1 and any("-" in v for v in rows.values()):
+                out["nontrivial"].add(("windows", arr, str(rows), w, st, a, b))
+
+
 def correspondence(ctx):
     out = new_outcome(
         "Lean row model (IndelMap x displayed string per row) vs real Alignment rows after every op of random histories "
@@ -1198,7 +1550,11 @@ def correspondence(ctx):
         "(motif_length 1-3) are in the model as `filter_mask` (the predicate is evaluated by the harness on the string columns, "
         "the model mirrors the run-length FeatureMap + joined_segments path of Alignment and the column take of "
         "ArrayAlignment); dense rows vs ArrayAlignment; the VIEW-level row model of view_history_refines (IndelMap x C01 "
-        "sequence view: start/stop/step/seq_len/parent string under every row) on slice/rc histories. compared: each "
+        "sequence view: start/stop/step/seq_len/parent string under every row) on slice/rc histories; for 2/3 of the filter ops "
+        "the MODEL evaluates the predicate itself (Model/AlnPred.lean: motif columns, AllowedCharacters, GapsOk with the binary64 "
+        "quotient, kept toggle, drop_remainder refusal); the real GapsOk / AllowedCharacters objects (string + array flavour) on "
+        "random motif columns with thresholds on / one ulp off the exact fraction; f64div vs CPython division (0<=k<=d<=40 + "
+        "random up to 2^40); sliding_windows of both classes vs windowBounds. compared: each "
         "row's (gap_pos, cum_gap_lengths, parent_length, data string), names, to_dict. non-trivial = distinct (alignment, "
         "history) with >= 1 op applied and a gap in some row"
     )
@@ -1241,6 +1597,8 @@ def correspondence(ctx):
         ("slice-rc-slice", ["?take_positions", "slice", "rc", "slice", "?take_positions"]),
         ("take_positions", ["?slice", "?rc", "take_positions", "?slice"]),
         ("take_positions", ["take_positions", "?rc", "?take_positions"]),
+        ("motif", ["?slice", "?rc", "motif", "?motif"]),
+        ("motif", ["motif", "?rc", "motif"]),
     ]
     for it in range(ctx.budget(500, 6000)):
         name, plan = CORR_PLANS[it % len(CORR_PLANS)]
@@ -1338,6 +1696,7 @@ def correspondence(ctx):
         if len(out["samples"]) < 3 and len(ops) >= 3 and isinstance(real_states[-1], list):
             out["samples"].append(dict(moltype=mt, rows=rows, ops=ops, final_row_states=real_states[-1]))
     _view_correspondence(ctx, out, rng)
+    _pred_correspondence(ctx, out, rng)
     return out
 
 
@@ -1363,6 +1722,23 @@ def match_finding(f, k):
             return False
     if r.get("moltypes") and inp.get("moltype") not in r["moltypes"]:
         return False
+    if r.get("impl") and inp.get("impl") != r["impl"]:
+        return False
+    if r.get("rc_forgotten"):
+        # the finding explains exactly ONE wrong answer: the rows the history gives when the reverse complements before
+        # the last operation are not applied to the sequences kept by it (anything else is a different violation)
+        try:
+            mt, cur = inp["moltype"], dict(inp["seqs"])
+            for op in [o for o in ops if o[0] != "rc"]:
+                mt, cur = _coll_spec(mt, cur, op)
+        except Exception:
+            return False
+        got = f.get("got")
+        if not isinstance(got, dict) or ops[-1][0] == "rc" or set(got) != set(cur):
+            return False
+        new_names = set(ops[-1][1]) if ops[-1][0] == "add_seqs" else set()
+        if any(got[n] != cur[n] for n in got if n not in new_names):
+            return False
     if r.get("got") and str(f.get("got")) != r["got"]:
         # the finding explains one exception class only (another exception, or wrong rows, is a different violation)
         return False
@@ -1387,6 +1763,25 @@ def _replay_input(inp, sig):
 
     rng = random.Random(0)
     arr = inp.get("cls") == "ArrayAlignment"
+    if "seqs" in inp and "impl" in inp:
+        _run_coll(out, inp["impl"], inp["moltype"], inp["seqs"], inp["ops"])
+        for f in out["failures"]:
+            if sig is None or f["sig"] == sig:
+                return f
+        return None
+    if "windows" in inp:
+        aln = _mk(inp["rows"], inp["moltype"], arr)
+        mt, rows = inp["moltype"], dict(inp["rows"])
+        try:
+            for op in inp["ops"]:
+                aln = _real_apply(aln, op, mt)
+                mt, rows = _spec_apply(mt, rows, op)
+            w, st, a, b = inp["windows"]
+            got = [x.to_dict() for x in aln.sliding_windows(w, st, start=a, end=b)]
+        except Exception as e:
+            got = {"err": type(e).__name__}
+        want = _windows_oracle(rows, *inp["windows"])
+        return None if got == want else dict(what="sliding_windows", input=inp, expected=want, got=got, sig=sig)
     if "method" in inp:
         # force the method comparison
         global READ_ONLY
@@ -1416,7 +1811,8 @@ def check_witness(ctx, w):
 def replay(ctx, data):
     f = data.get("failing_input") or {}
     inp = f.get("input")
-    if not inp or "rows" not in inp:
+    if not inp or ("rows" not in inp and "impl" not in inp):
+        print("input", inp, "expected", f.get("expected"), "got", f.get("got"))
         return False
     r = _replay_input(inp, None)
     if r:
